@@ -303,7 +303,10 @@ func init() {
 	// case: "<root hex> <files L|D<relhex>,..> <cur rel hex> <refs r|q|d|D<hex>,..> <events c|d<relhex>,..|->"
 	// a real AllProject over a real directory: first analysis, then one HandleFileEventChanges per event;
 	// after each: per reference of cur  err6:valid:{loaded}:{definition files}:{hover candidates}
-	register("c18.project", func(line string) string {
+	// An event may be a BATCH `<ev>+<ev>+..` (leg c18.batch): the disk operations are performed in this order, then ONE
+	// HandleFileEventChanges call gets all the events (what one workspace/didChangeWatchedFiles notification becomes);
+	// the same path may occur several times in a batch. m<relhex> = the file is rewritten, Changed event.
+	projectLeg := func(line string) string {
 		f := strings.Fields(line)
 		t, err := c18MakeTree(f[0], f[1])
 		if err != nil {
@@ -412,23 +415,37 @@ func init() {
 		}
 
 		steps := []string{observe()}
-		for _, ev := range c18Split(f[4]) {
-			abs := t.root + "/" + string(unhex(ev[1:]))
-			typ := check.FileEventCreated
-			if ev[0] == 'c' {
-				if err := os.MkdirAll(filepath.Dir(abs), 0o755); err != nil {
-					return "SETUP-ERROR " + err.Error()
+		for _, group := range c18Split(f[4]) {
+			batch := []check.FileEventStruct{}
+			for _, ev := range strings.Split(group, "+") {
+				abs := t.root + "/" + string(unhex(ev[1:]))
+				typ := check.FileEventCreated
+				switch ev[0] {
+				case 'c', 'm':
+					if err := os.MkdirAll(filepath.Dir(abs), 0o755); err != nil {
+						return "SETUP-ERROR " + err.Error()
+					}
+					text := "return {}\n"
+					if ev[0] == 'm' {
+						text = "return {1}\n"
+						typ = check.FileEventChanged
+					}
+					if err := os.WriteFile(abs, []byte(text), 0o644); err != nil {
+						return "SETUP-ERROR " + err.Error()
+					}
+				case 'd':
+					os.Remove(abs)
+					typ = check.FileEventDeleted
+				default:
+					return "BAD-CASE"
 				}
-				if err := os.WriteFile(abs, []byte("return {}\n"), 0o644); err != nil {
-					return "SETUP-ERROR " + err.Error()
-				}
-			} else {
-				os.Remove(abs)
-				typ = check.FileEventDeleted
+				batch = append(batch, check.FileEventStruct{StrFile: abs, Type: typ})
 			}
-			project.HandleFileEventChanges([]check.FileEventStruct{{StrFile: abs, Type: typ}})
+			project.HandleFileEventChanges(batch)
 			steps = append(steps, observe())
 		}
 		return strings.Join(steps, ";")
-	})
+	}
+	register("c18.project", projectLeg)
+	register("c18.batch", projectLeg)
 }
